@@ -147,20 +147,27 @@ impl Monitor for C07 {
             }
         }
         let ins_bal = pre.bal(w.insurance.as_str());
-        let need = Big::u(2).mul(Big::u(view.pos.notional).add(Big::u(view.pos.margin)).add(Big::u(q_whole)));
+        // "holds enough to cover any shortfall": position value, margin, the close quote and the funding owed, twice over
+        let need = Big::u(2).mul(Big::u(view.pos.notional).add(Big::u(view.pos.margin)).add(Big::u(q_whole)).add(view.funding().abs()));
         if Big::u(ins_bal) < need {
             r.count("skip:insurance-fund-too-small");
             return;
         }
         let vault = pre.bal(w.engine.as_str());
         let class = if ratio.is_neg() { "negative" } else if ratio > Big::u(e.liq_fee) { "above-fee" } else { "below-fee" };
-        let vault_short = vault < view.pos.margin;
+        // everything a full liquidation sends out of the vault: the whole remaining equity (insurance
+        // fund part + liquidator fee), or at least the fee
+        let fee = Big::u(q_whole).mul(Big::u(e.liq_fee)).div(Big::u(2 * d));
+        let equity = Big::u(view.pos.margin).add(view.pnl_for(q_whole)).sub(view.funding());
+        let outflow = equity.max(fee);
+        let vault_short = Big::u(vault) < outflow || vault < view.pos.margin;
         let feed = if w.cfg.feed == FeedKind::Real { "real" } else { "mock" };
         let partial = if e.partial == 0 { "p0" } else if e.partial == d { "p100" } else { "pmid" };
         r.count("antecedents-met");
         r.case(format!("{}|{}|{}|{}|vault_short={}|paused={}|{}", feed, which, class, partial, vault_short, e.paused, if view.pos.long_dir { "long" } else { "short" }));
+        let pclass = if e.partial == 0 { "p0" } else { "p>0" };
         self.expect = Some((
-            format!("{}|{}|{}|vault_short={}", feed, class, partial, vault_short),
+            format!("{}|{}|{}|vault_short={}", feed, class, pclass, vault_short),
             format!(
                 "ratio {} ({}) < maintenance {}, size {} margin {} notional {} close quote {} vault {} insurance {} partial {} liq_fee {}",
                 ratio, which, e.maint, view.pos.size, view.pos.margin, view.pos.notional, q_whole, vault, ins_bal, e.partial, e.liq_fee
@@ -178,10 +185,20 @@ impl Monitor for C07 {
             r.count("progress-ok");
             r.sample_once(&ctx, json!({"op": short_op(&st.op), "pre": detail, "result": "liquidated"}));
         } else {
+            // signature: oracle kind, error class and the context that error class depends on
+            let parts: Vec<&str> = ctx.split('|').collect();
+            let ec = err_class(&st.out.err_text());
+            let sig_ctx = if ec.contains("transfer failure") {
+                parts[3].to_string()
+            } else if ec.contains("parsing into type") {
+                "oracle-read".to_string()
+            } else {
+                format!("{}|{}", parts[1], parts[2])
+            };
             r.violation(
                 "C07",
                 "R1-under-margined-not-liquidatable",
-                format!("R1|{}|{}", ctx, err_class(&st.out.err_text())),
+                format!("R1|{}|{}|{}", parts[0], ec, sig_ctx),
                 format!("Liquidate failed with '{}' although {}", st.out.err_text(), detail),
                 st.seq,
             );
